@@ -56,6 +56,12 @@ CHECKS.update({
         note='Trusted: symnp engine incl. the calculus rules of sqrt/exp/log/pow on dual numbers, z3. Spaces of 2-4 entries (rn, array-weighted rn, uniform_discr, plain/weighted product spaces). One known finding (Huber on array-weighted spaces raises).',
         ref='DESIGN.md section 4 C09'),
 })
+CHECKS.update({
+    'C07': dict(
+        text='p = f.proximal(sigma)(x) is computed by the real proximal code on symbolic x for every functional recipe offering a proximal (built-ins and derived: translation, argument scaling of either sign, positive scaling, quadratic perturbation, separable sums incl. per-component steps, conjugates, Bregman distances); for a symbolic competitor z z3 refutes 2 sigma f(z) + |z-x|^2 < 2 sigma f(p) + |p-x|^2 on every pair of paths (f from the real functional code, norm from the space\'s own weighted inner product; case split on all abs/max/sort decisions), f(p) finite, indicator proximals idempotent, firm non-expansiveness for piecewise linear ones; norm-like (sqrt) and KL functionals by the first-order condition (x-p)/sigma = grad f(p) with the library gradient (tied to the values by C09).',
+        note='Trusted: symnp engine, z3; dimension 1-2 (stated per recipe), sigma symbolic for a subset, dyadic otherwise; inequality goals that are refutable only outside the box [-8,8]^n count as holding on the box; np.finfo eps served as 0. Not decided: KL cross entropy (Lambert W), nuclear norm; L2-ball projections by values only in the thorough tier. Two known findings.',
+        ref='DESIGN.md section 4 C07'),
+})
 NOT_YET = {}
 
 
